@@ -34,6 +34,8 @@ def parseExt (ev : List SExp) : Option Ext :=
   match ev with
   | .atom "sub" :: _ => some .sub
   | .atom "emit" :: i :: n :: _ => some (.emit i.nat (parseNotif n))
+  -- `temit`: the same emission made from ANOTHER thread (joined before the next event): no difference for the model
+  | .atom "temit" :: i :: n :: _ => some (.emit i.nat (parseNotif n))
   | .atom "unsub" :: _ => some .unsub
   | .atom "q" :: .atom "closed" :: _ => some .qClosed
   | .atom "q" :: .atom "tap" :: _ => some .qTap
@@ -49,6 +51,18 @@ def runPipeCase (c : Case) : List String :=
   let rec go (w : World) (k : Nat) : List (List SExp) → List String
     | [] => []
     | ev :: r =>
+      match ev with
+      | .atom "remit" :: i :: n :: j :: m :: _ =>
+        -- `remit i n j m` (threads, C04): (i, n) is emitted on one thread and, WHILE the probe is being called for it,
+        -- (j, m) on another.  The operators of the family hold their cell while they call downstream, so the second
+        -- emission is ordered behind the first: the two outputs, in that order, on one line
+        let (w1, o1) := w.step (.emit i.nat (parseNotif n))
+        let (w2, o2) := w1.step (.emit j.nat (parseNotif m))
+        let both := match o1, o2 with
+          | .out a, .out b => showOut (a ++ b)
+          | _, _ => "BADOUT"
+        s!"{c.id}.{k} {both}" :: go w2 (k + 1) r
+      | _ =>
       match parseExt ev with
       | some x =>
         let (w', o) := w.step x
